@@ -1112,6 +1112,21 @@ func (b *Block) ApplyBlockStateChange(bsc *StateChange, c Chainer) error {
 		return state.ErrMalformedPartialState
 	}
 
+	// Every node a block changes is created in that block and carries the block's round as
+	// its origin (MergeDB stamps that origin on whatever it is given). A node with another
+	// origin is an old node of the state sent in place of a changed one: root, block hash
+	// and count would all match while a changed node is missing from the merged state.
+	for _, n := range bsc.Nodes {
+		if n.GetOrigin() != util.Sequence(b.Round) {
+			logging.Logger.Error("apply block state changes, node not created in this block",
+				zap.Int64("round", b.Round),
+				zap.String("block", b.Hash),
+				zap.String("node", n.GetHash()),
+				zap.Int64("node origin", int64(n.GetOrigin())))
+			return state.ErrMalformedPartialState
+		}
+	}
+
 	err := clientState.MergeDB(bsc.GetNodeDB(), bsc.GetRoot().GetHashBytes(), bsc.GetDeadNodes())
 	if err != nil {
 		logging.Logger.Error("apply block state changes - error merging",
